@@ -153,7 +153,7 @@ struct SimState {
   std::deque<Island> islands;
   World w;
   std::vector<SimFile> files;
-  struct Fd { bool open = false; int file = -1; size_t pos = 0; bool writable = false; bool append = false; };
+  struct Fd { bool open = false; int file = -1; size_t pos = 0; bool writable = false; bool append = false; bool wfailed = false; int werrno = 0; bool to_stdout = false; };
   std::vector<Fd> fds;
   std::map<void *, size_t> heap;  // blocks allocated by real code
   std::map<FILE *, OutStream *> ostreams;
@@ -754,6 +754,29 @@ extern "C" void *__wrap_calloc(size_t a_, size_t b_) {
   if (p) G.heap[p] = a_ * b_;
   return p;
 }
+// realloc of a block the process allocated: one more way to ask for memory (a refusal leaves the old block alone)
+extern "C" void *__real_realloc(void *, size_t);
+extern "C" void *__wrap_realloc(void *p, size_t n) {
+  if (!in_lib()) return __real_realloc(p, n);
+  HarnessScope hs_;
+  const EnvAns *a = answer(K_MALLOC);
+  if (a && a->ans == ANS_FAIL && n > 0) {
+    note_fired(K_MALLOC);
+    errno = a->err ? a->err : ENOMEM;
+    return nullptr;
+  }
+  void *q = __real_realloc(p, n);
+  if (p && (q || n == 0)) G.heap.erase(p);
+  if (q) G.heap[q] = n;
+  return q;
+}
+extern "C" void *__wrap_reallocarray(void *p, size_t a_, size_t b_) {
+  if (b_ && a_ > (size_t)-1 / b_) {
+    errno = ENOMEM;
+    return nullptr;
+  }
+  return __wrap_realloc(p, a_ * b_);
+}
 extern "C" void __wrap_free(void *p) {
   if (!in_lib()) {
     __real_free(p);
@@ -796,6 +819,10 @@ extern "C" void *__wrap_mmap(void *addr, size_t len, int prot, int flags, int fd
   int k = index_of_fd(fd);
   if (k < 0 || k >= (int)G.fds.size() || !G.fds[k].open) {
     errno = EBADF;
+    return MAP_FAILED;
+  }
+  if (G.fds[k].file < 0) {  // a descriptor for the standard output
+    errno = ENODEV;
     return MAP_FAILED;
   }
   SimFile &f = G.files[G.fds[k].file];
@@ -969,12 +996,25 @@ extern "C" int __wrap_open(const char *path, int flags, ...) {
   if (!in_lib()) return __real_open(path, flags, mode);
   HarnessScope hs_;
   const EnvAns *a = answer(K_OPEN);
+  if (a && a->ans == ANS_FAIL && a->err == EINTR) {  // interrupted: nothing was opened; retrying is as legal as giving up
+    cur_ctx()->soft_faults++;
+    errno = EINTR;
+    return -1;
+  }
   if (a && a->ans == ANS_FAIL) {
     note_fired(K_OPEN);
     errno = a->err ? a->err : EMFILE;
     return -1;
   }
   const bool wr = (flags & O_ACCMODE) != O_RDONLY;
+  if (wr && !strcmp(path, "/dev/stdout")) {  // another descriptor for the process's standard output
+    SimState::Fd fd;
+    fd.open = true;
+    fd.writable = true;
+    fd.to_stdout = true;
+    G.fds.push_back(fd);
+    return fd_of_index((int)G.fds.size() - 1);
+  }
   int fi = -1;
   for (size_t i = 0; i < G.files.size(); i++)
     if (G.files[i].path == path) fi = (int)i;
@@ -1027,16 +1067,48 @@ extern "C" ssize_t __wrap_write(int fd, const void *buf, size_t n) {
     G.st.stderr_bytes += (long)n;
     return (ssize_t)n;
   }
-  int kind = fd == 1 ? K_OUT : K_CWRITE;
+  bool to_stdout = fd == 1;
+  if (fd != 1) {
+    int k1 = index_of_fd(fd);
+    if (k1 >= 0 && k1 < (int)G.fds.size() && G.fds[k1].open && G.fds[k1].to_stdout) to_stdout = true;
+  }
+  int kind = to_stdout ? K_OUT : K_CWRITE;
   const EnvAns *a = answer(kind);
   size_t take = n;
   int err = 0;
-  if (a && (a->ans == ANS_FAIL || a->ans == ANS_SHORT) && n > 0) {
+  // a refusal is sticky, as for streams: a full disk stays full, a broken pipe stays broken (a caller that retries
+  // after a partial write meets the error itself on the next call)
+  bool *failedp = &G.out_state.failed;
+  int *errp = &G.out_state.fail_errno;
+  if (fd != 1) {
+    int k0 = index_of_fd(fd);
+    if (k0 >= 0 && k0 < (int)G.fds.size() && G.fds[k0].open) {
+      failedp = &G.fds[k0].wfailed;
+      errp = &G.fds[k0].werrno;
+    } else
+      failedp = nullptr;
+  }
+  if (failedp && *failedp && n > 0) {
+    errno = *errp;
+    return -1;
+  }
+  if (a && (a->ans == ANS_FAIL || a->ans == ANS_SHORT) && a->err == EINTR && n > 0) {
+    // an interrupted write(2): nothing or a part was written, and the next call works again.  Legal at any
+    // time and not a refusal: the caller may retry or give up, but must not report success for incomplete data.
+    cur_ctx()->soft_faults++;
+    G.st.transient_short_writes++;
+    err = EINTR;
+    take = (a->ans == ANS_FAIL || n == 1) ? 0 : std::min<size_t>(n - 1, (size_t)std::max(1L, a->arg));
+  } else if (a && (a->ans == ANS_FAIL || a->ans == ANS_SHORT) && n > 0) {
     note_fired(kind);
     err = a->err ? a->err : ENOSPC;
     take = a->ans == ANS_FAIL ? 0 : std::min<size_t>(n - 1, (size_t)std::max(0L, a->arg));
+    if (failedp) {
+      *failedp = true;
+      *errp = err;
+    }
   }
-  if (fd == 1) {
+  if (to_stdout) {
     G.out_cap.append((const char *)buf, take);
   } else {
     int k = index_of_fd(fd);
@@ -1103,6 +1175,12 @@ extern "C" int __wrap_fstat(int fd, struct stat *st) {
   if (k < 0 || k >= (int)G.fds.size() || !G.fds[k].open) {
     errno = EBADF;
     return -1;
+  }
+  if (G.fds[k].file < 0) {  // a descriptor for the standard output: a pipe
+    memset(st, 0, sizeof *st);
+    st->st_mode = S_IFIFO | 0600;
+    st->st_blksize = 4096;
+    return 0;
   }
   SimFile &f = G.files[G.fds[k].file];
   memset(st, 0, sizeof *st);
@@ -1181,6 +1259,10 @@ extern "C" ssize_t __wrap_read(int fd, void *buf, size_t n) {
     errno = EBADF;
     return -1;
   }
+  if (G.fds[k].file < 0) {
+    errno = EBADF;
+    return -1;
+  }
   SimFile &f = G.files[G.fds[k].file];
   if (f.kind == 2) {
     errno = EISDIR;
@@ -1201,6 +1283,11 @@ extern "C" FILE *__wrap_fopen(const char *path, const char *mode) {
   if (!in_lib()) return __real_fopen(path, mode);
   HarnessScope hs_;
   const EnvAns *a = answer(K_FOPEN);
+  if (a && a->ans == ANS_FAIL && a->err == EINTR) {  // interrupted: nothing was opened; retrying is as legal as giving up
+    cur_ctx()->soft_faults++;
+    errno = EINTR;
+    return nullptr;
+  }
   if (a && a->ans == ANS_FAIL) {
     note_fired(K_FOPEN);
     errno = a->err ? a->err : EACCES;
@@ -1436,6 +1523,10 @@ extern "C" off_t __wrap_lseek(int fd, off_t off, int whence) {
     errno = EBADF;
     return (off_t)-1;
   }
+  if (G.fds[k].file < 0) {
+    errno = ESPIPE;
+    return (off_t)-1;
+  }
   SimFile &f = G.files[G.fds[k].file];
   long long base = whence == SEEK_SET ? 0 : whence == SEEK_CUR ? (long long)G.fds[k].pos : (long long)f.data.size();
   long long np = base + off;
@@ -1470,6 +1561,10 @@ extern "C" FILE *__wrap_fdopen(int fd, const char *mode) {
     G.ostreams[f] = os;
     G.fds[k].open = false;  // the stream owns the descriptor now
     return f;
+  }
+  if (G.fds[k].file < 0) {
+    errno = EINVAL;
+    return nullptr;
   }
   InStream *is = new InStream();
   is->data = G.files[G.fds[k].file].data;
